@@ -631,3 +631,93 @@ class SizeAndValues(FunctionContract):
 
 
 CONTRACTS += [SizeAndValues('container', 'size'), SizeAndValues('model', 'size'), SizeAndValues('container', 'values'), SizeAndValues('model', 'values')]
+
+
+class InterfaceInit(FunctionContract):
+    """ModelInterface.__init__(span, strict, dtype, default_value, **initial_values): the bookkeeping variables come first (status '-',
+    iterations -1), then one variable per name of NAMES in that order, each created exactly once with the keyword given for it (the value
+    itself) or else the default value, and with the model's dtype; duplicate names in NAMES are refused (DuplicateNameError); under strict a
+    keyword that names no variable is refused (InitialisationError) before any model variable is created; without strict it is ignored."""
+    qualname = 'fsic.core.interfaces.ModelInterface.__init__'
+    props = ('C09', 'C18')
+    required_covers = ('constructed', 'duplicate-names', 'unlisted-keyword')
+
+    def scenarios(self):
+        return ['defaults', 'keywords', 'unlisted-keyword-strict', 'unlisted-keyword-lenient', 'duplicate-names', 'no-names']
+
+    def setup(self, interp, scenario):
+        from fsic.core.interfaces import ModelInterface
+        from pyvc.libspec import A
+        ctx = interp.ctx
+        names = {'duplicate-names': ['Y', 'C', 'Y'], 'no-names': []}.get(scenario, ['Y', 'C', 'G'])
+
+        class M(ModelInterface, VectorContainer):
+            NAMES = list(names)
+        e = {'scenario': scenario, 'added': [], 'attrs': [], 'parent': [], 'names': names, 'cls': M}
+        obj = SObj(M, {}, label='model')
+        e['obj'] = obj
+        strict = scenario == 'unlisted-keyword-strict'
+        kw = {}
+        if scenario == 'keywords':
+            kw = {'C': object(), 'Y': object()}
+        elif scenario.startswith('unlisted-keyword'):
+            kw = {'G': object(), 'Gx': object()}
+        e['kw'] = kw
+        e['dtype'], e['default'] = object(), object()
+
+        def container_init(interp_, o, args, kwargs, node):
+            e['parent'].append((list(args), dict(kwargs)))
+            o.fields['_strict'] = kwargs.get('strict', False)
+            return None
+
+        def add_variable(interp_, o, args, kwargs, node):
+            e['added'].append((args[0], args[1], dict(kwargs)))
+            return None
+
+        def add_attribute(interp_, o, args, kwargs, node):
+            e['attrs'].append((args[0], args[1]))
+            o.fields[args[0]] = args[1]
+            return None
+
+        def closest(interp_, o, args, kwargs, node):
+            ctx.use(A('fsic.get_closest_match', 'get_closest_match returns a list of names and changes nothing'))
+            return ['G']
+        interp.registry.set_calls({'fsic.core.containers.VectorContainer.__init__': container_init, 'fsic.core.containers.VectorContainer.add_variable': add_variable,
+                                   'fsic.core.containers.VectorContainer.add_attribute': add_attribute, 'fsic.core.interfaces.ModelInterface.get_closest_match': closest,
+                                   'fsic.core.containers.VectorContainer.get_closest_match': closest})
+        e['span'] = [1, 2, 3]
+        e['inputs'] = {}
+        return Call([e['span']], dict(kw, strict=strict, dtype=e['dtype'], default_value=e['default']), self_obj=obj, entry=e)
+
+    def post(self, interp, scenario, call, out):
+        from fsic.exceptions import DuplicateNameError, InitialisationError
+        ctx = interp.ctx
+        e = call.entry
+        names = e['names']
+        model_vars = [a for a in e['added'] if a[0] not in ('status', 'iterations')]
+        book = [a for a in e['added'] if a[0] in ('status', 'iterations')]
+        ctx.prove(z3.BoolVal(len(e['parent']) == 1 and e['parent'][0][0] == [e['span']]), 'container_constructed_once_over_the_span', 'ensures')
+        if out.kind == 'raise':
+            cls = exc_class(out.exc)
+            if cls is DuplicateNameError:
+                ctx.cover('duplicate-names')
+                ctx.prove(z3.BoolVal(scenario == 'duplicate-names'), 'DuplicateNameError_only_for_a_name_listed_twice', 'raises')
+            else:
+                ctx.cover('unlisted-keyword')
+                ctx.prove(z3.BoolVal(cls is InitialisationError and scenario == 'unlisted-keyword-strict'), 'InitialisationError_only_for_an_unlisted_keyword_under_strict', 'raises')
+            ctx.prove(z3.BoolVal(not model_vars), 'a_refused_construction_creates_no_model_variable', 'frame')
+            return
+        ctx.cover('constructed')
+        ctx.prove(z3.BoolVal(scenario not in ('duplicate-names', 'unlisted-keyword-strict')), 'duplicate_names_and_unlisted_keywords_under_strict_are_refused', 'raises')
+        ok = [(a[0], a[1]) for a in book] == [('status', '-'), ('iterations', -1)] and e['added'][:2] == book
+        ctx.prove(z3.BoolVal(ok), "bookkeeping_variables_come_first_with_status_'-'_and_iterations_-1", 'ensures', note=str([(a[0], a[1]) for a in book]))
+        ctx.prove(z3.BoolVal([a[0] for a in model_vars] == names), 'one_variable_per_name_in_the_order_of_NAMES', 'ensures', note=str([a[0] for a in model_vars]))
+        if [a[0] for a in model_vars] == names:
+            for nm, val, kw in model_vars:
+                want = e['kw'].get(nm, e['default'])
+                ctx.prove(z3.BoolVal(val is want and kw.get('dtype') is e['dtype']), f'{nm}:created_with_its_keyword_value_else_the_default_and_with_the_model_dtype', 'ensures')
+        nm_attr = e['obj'].fields.get('names')
+        ctx.prove(z3.BoolVal(nm_attr == names and nm_attr is not e['cls'].NAMES), 'instance_names_is_a_copy_of_the_class_list', 'own')
+
+
+CONTRACTS.append(InterfaceInit())
